@@ -256,6 +256,21 @@ def run_property(prop, tier, seed):
             for fl in fails:
                 violations.append(('bounded', {'obligation': 'bounded:%s' % b['name'], 'kind': 'bounded-check', 'rendered': fl, 'spans': [],
                                                'witness': {'confirmed_on_real_code': True, 'input': fl, 'replay': {'driver': b['driver'], 'args': b.get('args', [])}}}))
+    # ---- syntactic frame conditions (unit hook FRAME): "every function outside the contracted set has no access path to the
+    # state" is decided by scanning the real source text on every run; a function that gains an access path without being
+    # under contract fails the frame obligation (there is no verifier counterexample for it).
+    frame_info = []
+    for (n, m) in serving:
+        for fn in getattr(m, 'FRAME_CHECKS', {}).get(prop, []):
+            try:
+                res = fn(os.environ.get('VERIF_REPO', '/repo'))
+            except Exception as e:  # lost anchor etc.: undecided, never an alarm
+                undecided.append('frame check %s could not run: %s' % (getattr(fn, '__name__', '?'), e))
+                continue
+            for r_ in res:
+                frame_info.append({'name': r_['name'], 'ok': r_['ok'], 'detail': r_['detail'][:400]})
+                if not r_['ok']:
+                    violations.append(('frame', {'obligation': 'frame:%s' % r_['name'], 'kind': 'frame-condition', 'rendered': r_['detail'], 'spans': [], 'src': r_.get('src')}))
     wall = time.time() - t0
     # ---- report
     for nmsg in notes:
@@ -310,6 +325,7 @@ def run_property(prop, tier, seed):
             'undecided': undecided,
             'thorough': extra_info,
             'bounded_stand_ins': bounded_info,
+            'frame_conditions': frame_info,
         },
         'assumptions': sorted(set([x for (n, m) in serving for x in getattr(m, 'ASSUMPTIONS', [])])),
         'wall_s': round(wall, 2),
@@ -339,6 +355,10 @@ def replay(path):
     with open(path) as f:
         rep = json.load(f)
     units = load_units()
+    if rep['unit'] not in units:  # frame condition / bounded stand-in: re-run the property's quick check
+        print('obligation %s (%s):' % (rep['obligation'], rep['kind']))
+        print(rep.get('verifier_output', ''))
+        return run_property(rep['property'], 'quick', 0)
     m = units[rep['unit']]
     r = safe_run(m.UNIT, 'main', None, None)
     if isinstance(r, str):
